@@ -218,6 +218,7 @@ class XPowGate(eigen_gate.EigenGate):
         result = super().controlled(num_controls, control_values, control_qid_shape)
         if (
             self._global_shift == 0
+            and self._dimension == 2
             and isinstance(result, controlled_gate.ControlledGate)
             and isinstance(result.control_values, cv.ProductOfSums)
             and result.control_values.is_trivial
@@ -266,6 +267,8 @@ class XPowGate(eigen_gate.EigenGate):
 
     def _phase_by_(self, phase_turns, qubit_index):
         """See `cirq.SupportsPhase`."""
+        if self._dimension != 2:
+            return NotImplemented
         return _phased_x_or_pauli_gate(exponent=self._exponent, phase_exponent=phase_turns * 2)
 
     def _has_stabilizer_effect_(self) -> bool | None:
@@ -730,6 +733,7 @@ class ZPowGate(eigen_gate.EigenGate):
         result = super().controlled(num_controls, control_values, control_qid_shape)
         if (
             self._global_shift == 0
+            and self._dimension == 2
             and isinstance(result, controlled_gate.ControlledGate)
             and isinstance(result.control_values, cv.ProductOfSums)
             and result.control_values.is_trivial
